@@ -72,7 +72,8 @@ def gen_case(rng: random.Random, big=False) -> dict:
         tiers.insert(rng.randint(0, len(tiers)), "bogus_tier")
     t2 = {"k_retrieval": rng.choice([1, 2, 3, 5, 8, 64]), "sim_threshold": rng.choice([-1.0, -1.0, -0.2, 0.0, 0.0, 0.05, 0.1, 0.3, 1.0]),
           "tiers": tiers, "exact_recent_days": recent, "clusters_top_m": rng.choice([1, 2, 3, 10]),
-          "owner_scope": rng.choice(["any", "agent", "agent", "world"]),
+          # the scope is matched case-insensitively (the validator accepts any spelling and keeps it verbatim)
+          "owner_scope": rng.choice(["any", "agent", "agent", "world", "Agent", "AGENT", "World", "ANY"]),
           "ranking": {"alpha_sim": rng.choice([0.75, 1.0, 0.0, 0.5]), "beta_recency": rng.choice([0.2, 0.0, 1.0]),
                       "gamma_importance": rng.choice([0.05, 0.0, 1.0])},
           "cache": {"enabled": False}}
@@ -116,7 +117,7 @@ def gen_case(rng: random.Random, big=False) -> dict:
         if rng.random() < 0.3:
             fu["query"] = " ".join(rng.sample(VOCAB, rng.randint(0, 3)))
         if rng.random() < 0.3:
-            fu["t2"] = {"owner_scope": rng.choice(["any", "agent", "world"])}
+            fu["t2"] = {"owner_scope": rng.choice(["any", "agent", "world", "Agent", "WORLD"])}
         elif rng.random() < 0.2:
             fu["t2"] = {"tiers": rng.sample(["exact_semantic", "cluster_semantic", "archive"], rng.randint(1, 3))}
         followups.append(fu)
